@@ -78,8 +78,9 @@ def proj_seg(seg):
     return {'id': vlib.codes(seg.get_seg_id() or ''), 'eles': [[vlib.codes(e.get_value()) for e in comp.elements] for comp in seg.elements]}
 
 
-def read_all(src, bufsize=None):
-    """iterate the real reader; returns (list of (Segment, errors)), exc)"""
+def read_all(src, bufsize=None, lx=False):
+    """iterate the real reader; returns (list of (Segment, errors)), exc).  lx: the public option check_837_lx (the callers'
+    837 service-line check) switched on - it must not change what is yielded"""
     old = pyx12.rawx12file.DEFAULT_BUFSIZE
     if bufsize:
         pyx12.rawx12file.DEFAULT_BUFSIZE = bufsize
@@ -87,6 +88,8 @@ def read_all(src, bufsize=None):
     exc = ''
     try:
         rd = pyx12.x12file.X12Reader(src)
+        if lx:
+            rd.check_837_lx = True
         for seg in rd:
             out.append((seg, rd.pop_errors()))
     except Exception as e:
@@ -111,7 +114,8 @@ def record(tid, body, triple, sched=None, bufsize=None, kind='stream', with_text
         src = SchedStream(text, sched)
     else:
         src = io.StringIO(text)
-    got, exc = read_all(src, bufsize)
+    lx = label.startswith('lx-check')
+    got, exc = read_all(src, bufsize, lx)
     if tmp:
         shutil.rmtree(os.path.dirname(tmp), ignore_errors=True)
     tr = {'id': tid, 'd': {'seg': ord(st), 'ele': ord(et), 'sub': ord(ct)}, 'text': vlib.codes(body) if with_text else [],
@@ -134,7 +138,7 @@ def record(tid, body, triple, sched=None, bufsize=None, kind='stream', with_text
                              'again': {'id': [], 'eles': []}})
     # read the formatted text again (each formatted segment on its own so that a bad one does not shift the others)
     for y, f in zip(tr['yields'], fmts):
-        g2, e2 = read_all(io.StringIO(header + f))
+        g2, e2 = read_all(io.StringIO(header + f), None, lx)
         segs2 = g2[1:] if not e2 else []
         y['again_n'] = len(segs2) if not e2 else -1
         if len(segs2) == 1:
@@ -245,6 +249,18 @@ def big_docs(tier, rnd):
             docs.append(('long-segment', triple, ''.join(s + st + eol for s in segs)))
             body = ''.join(s + st + eol for s in segs[:1]) + ' ' + segs[2] + st + eol + st + eol + '  ' + st + segs[0] + et + et + st + eol
             docs.append(('normalisations', triple, body + ''.join(s + st + eol for s in segs[3:100])))
+    # the reader option callers switch on for 837 maps (service-line numbering check): claims and service lines whose LX01 is
+    # zero-padded, out of sequence or not a number - whatever the check reports, the segments are yielded as they were written
+    for triple in TRIPLES[:3]:
+        st, et, ct = triple
+        for eol in ['', '\n']:
+            segs = []
+            for c in range(3):
+                segs.append('CLM%sA%d%s100' % (et, c, et))
+                for lxv in (['1', '2', '3'], ['01', '02'], ['1', '7', '3'], ['X', '2'])[(c + len(eol)) % 4]:
+                    segs.append('LX%s%s' % (et, lxv))
+                    segs.append('SV1%sHC%s99213%s40%sUN%s1' % (et, ct, et, et, et))
+            docs.append(('lx-check', triple, ''.join(x + st + eol for x in segs)))
     return docs
 
 
